@@ -310,6 +310,7 @@ func (x *runner) runCase(level string, c caseDef, coreOnly bool) {
 		return
 	}
 	sawAllow, sawDeny := false, false
+	reported := map[string]bool{}
 	for _, http := range []bool{true, false} {
 		requestsFor(&x.al, tch, http, coreOnly, func(r *request, label string) bool {
 			x.res.Evaluations++
@@ -321,7 +322,13 @@ func (x *runner) runCase(level string, c caseDef, coreOnly bool) {
 				sawDeny = true
 			}
 			if dir != "" {
-				x.report(c, r, dir)
+				// one minimised report per configuration, chain and direction; the other requests
+				// that fail in the same way are counted
+				x.res.Count("violating_evaluations", 1)
+				if k := fmt.Sprint(http, dir); !reported[k] {
+					reported[k] = true
+					x.report(c, r, dir)
+				}
 			}
 			if ord%4099 == 0 && len(x.res.Samples) < 6 && want != U {
 				x.res.Sample(map[string]any{"level": level, "policies": setShape(c.Pols), "request": r.String(), "policy_verdict": want.String(), "generated_admits": got})
@@ -331,6 +338,9 @@ func (x *runner) runCase(level string, c caseDef, coreOnly bool) {
 	}
 	if sawAllow && sawDeny {
 		x.res.NontrivialCase(fmt.Sprint(ord))
+	} else if level == "single" && !anyBad {
+		// honesty about the alphabets: single conditions whose request alphabet never changes the verdict
+		x.res.Count("single.not_discriminated."+setShape(c.Pols), 1)
 	}
 }
 
@@ -476,7 +486,7 @@ func TestC08(t *testing.T) {
 			for _, rule := range pairRules(a, bb) {
 				for _, act := range actions {
 					x.runCase("pair", caseDef{Mesh: mesh0, Pols: []polSpec{{Action: act, Rules: []ruleSpec{rule}}}}, false)
-					if thorough && a.def().dim == dPeer && bb.def().dim == dPeer {
+					if thorough && (a.def().dim == dPeer || bb.def().dim == dPeer) {
 						x.runCase("pair-aliases", caseDef{Mesh: mesh1, Pols: []polSpec{{Action: act, Rules: []ruleSpec{rule}}}}, false)
 					}
 				}
